@@ -686,6 +686,11 @@ def check_diagramize(ctx):
     want = [("inputs[i]", "Node('dom', obj=obj, i=i, depth=%s)" % D), ("Node('dom', obj=obj, i=i, depth=%s)" % D, "Node('box', box=box, depth=%s, offset=offset)" % D),
             ("Node('box', box=box, depth=%s, offset=offset)" % D, "Node('cod', obj=obj, i=i, depth=%s)" % D)]
     ctx.ob("R20.8", DR + ".diagramize.apply:edges", edges == want, found=edges, required="input_i -> dom_i -> box -> cod_i (what nx2diagram reads back)", mod=DR, node=apply, sig="apply-edges")
+    added = [ast.unparse(c.args[0]) for c in ast.walk(apply) if isinstance(c, ast.Call) and ast.unparse(c.func) == "graph.add_node" and c.args]
+    bn = next((s.targets[0].id for s in apply.body if isinstance(s, ast.Assign) and isinstance(s.targets[0], ast.Name) and isinstance(s.value, ast.Call) and ast.unparse(s.value.func) == "Node"
+               and s.value.args and getattr(s.value.args[0], "value", None) == "box"), None)
+    ctx.ob("R20.8", DR + ".diagramize.apply:box-node", bn is not None and bn in added, found="graph.add_node(%s)" % ", ".join(added) if added else "the box node is only added through its edges",
+           required="the box node is added to the graph itself: a box without inputs and outputs has no edge that would add it", mod=DR, node=apply, sig="apply-box-node")
     g = [s for s in apply.body if isinstance(s, ast.If) and isinstance(s.body[-1], ast.Raise)]
     ok = any(shape.key(s.test) == shape.key(shape.parse("len(inputs) != len(box.dom)")) for s in g)
     ctx.ob("R20.8", DR + ".diagramize.apply:arity", ok, found=[ast.unparse(s.test) for s in g], required="a box applied to the wrong number of wires is refused", mod=DR, node=apply, sig="apply-arity")
@@ -695,6 +700,59 @@ def check_diagramize(ctx):
     dec = inner(ctx, dz, "decorator")
     fin = [ast.unparse(s.test) for s in ast.walk(dec) if isinstance(s, ast.If) and isinstance(s.body[-1], ast.Raise)]
     ctx.ob("R20.8", DR + ".diagramize:cod-check", "result.cod != cod" in fin, found=fin, required="a result whose codomain is not the declared one is refused", mod=DR, node=dec, sig="diagramize-cod")
+
+
+def check_bubbles(ctx, top):
+    """R20.9: bubbles are drawn as an opening and a closing box of wires; wires go straight through them only when the lengths on that side agree"""
+    m = ctx.model
+    MON = "discopy.monoidal"
+    fn = m.func(MON + ".Diagram.open_bubbles")
+    ctx.analysed(MON + ".Diagram.open_bubbles")
+    call = next((f for f in ast.walk(fn) if isinstance(f, ast.FunctionDef) and f.name == "__call__"), None)
+    ctx.need(call is not None, "open_bubbles has no functor __call__")
+    dv = call.args.args[1].arg
+    br = next((s for s in call.body if isinstance(s, ast.If) and ast.unparse(s.test) == "isinstance(%s, Bubble)" % dv), None)
+    ctx.need(br is not None, "open_bubbles does not treat bubbles")
+    loc = {s.targets[0].id: s.value for s in br.body if isinstance(s, ast.Assign) and isinstance(s.targets[0], ast.Name)}
+    for s in br.body:
+        if isinstance(s, ast.Assign) and isinstance(s.targets[0], ast.Tuple) and isinstance(s.value, ast.Tuple):
+            loc.update({t.id: v for t, v in zip(s.targets[0].elts, s.value.elts) if isinstance(t, ast.Name)})
+    nm = {dv: "diagram"}
+    for name, spec in (("open_bubble", "Box('open_bubble', diagram.dom, left @ diagram.inside.dom @ right)"), ("close_bubble", "Box('_close', left @ diagram.inside.cod @ right, diagram.cod)")):
+        ctx.need(name in loc, "open_bubbles does not build %s" % name)
+        shape.match(ctx, "R20.9", "%s.Diagram.open_bubbles:%s" % (MON, name), loc[name], spec, nm, mod=MON, node=loc[name], sig="bubble-" + name,
+                    required="the %s box goes between the bubble's own type and the inside's type, framed by the two marker wires" % name.split("_")[0])
+    flags = {}
+    for s in br.body:
+        if isinstance(s, ast.If):
+            for a in s.body:
+                if isinstance(a, ast.Assign) and isinstance(a.targets[0], ast.Attribute) and a.targets[0].attr in ("bubble_opening", "bubble_closing"):
+                    flags[a.targets[0].attr] = (ast.unparse(a.targets[0].value), s.test)
+    for attr, owner, side in (("bubble_opening", "open_bubble", "dom"), ("bubble_closing", "close_bubble", "cod")):
+        got = flags.get(attr)
+        ok = got is not None and got[0] == owner and shape.key(shape.rename(got[1], nm)) == shape.key(shape.parse("len(diagram.%s) == len(diagram.inside.%s)" % (side, side)))
+        ctx.ob("R20.9", "%s.Diagram.open_bubbles:%s" % (MON, attr), ok, found="%s.%s set when %s" % (got[0], attr, ast.unparse(got[1])) if got else None,
+               required="%s.%s only when len(%s) of the bubble and of its inside agree (the straight wires dom_i -> cod_i+1 / dom_i+1 -> cod_i of add_box need equally many ports)" % (owner, attr, side),
+               mod=MON, node=br, sig="bubble-flag-" + attr)
+    ret = next((s for s in br.body if isinstance(s, ast.Return)), None)
+    ctx.need(ret is not None, "open_bubbles: the bubble branch returns nothing")
+    shape.match(ctx, "R20.9", MON + ".Diagram.open_bubbles:composite", ret.value, "open_bubble >> Id(left) @ self(diagram.inside) @ Id(right) >> close_bubble", nm, mod=MON, node=ret, sig="bubble-composite",
+                required="opening, the opened inside between the marker wires, closing")
+    # the straight edges in add_box
+    ab = inner(ctx, top, "add_box")
+    boxv, depthv = ab.args.args[1].arg, ab.args.args[3].arg
+    for flag, it, src, tgt in (("bubble_opening", "dom", "Node('dom', obj=obj, i=i, depth=depth)", "Node('cod', obj=obj, i=i + 1, depth=depth)"),
+                               ("bubble_closing", "cod", "Node('dom', obj=obj, i=i + 1, depth=depth)", "Node('cod', obj=obj, i=i, depth=depth)")):
+        blk = next((s for s in ab.body if isinstance(s, ast.If) and ast.unparse(s.test) == flag), None)
+        ctx.need(blk is not None and len(blk.body) == 1 and isinstance(blk.body[0], ast.For), "add_box has no edge loop for %s" % flag)
+        lp = blk.body[0]
+        iv, ov = (t.id for t in lp.target.elts)
+        edges = [(shape.inline(c.args[0], lp.body), shape.inline(c.args[1], lp.body)) for c in ast.walk(lp) if isinstance(c, ast.Call) and ast.unparse(c.func) == "graph.add_edge"]
+        r = {boxv: "box", depthv: "depth", iv: "i", ov: "obj"}
+        ok = ast.unparse(lp.iter) == "enumerate(%s.%s)" % (boxv, it) and len(edges) == 1 and shape.key(shape.rename(edges[0][0], r)) == shape.key(shape.parse(src)) and \
+            shape.key(shape.rename(edges[0][1], r)) == shape.key(shape.parse(tgt))
+        ctx.ob("R20.9", "%s.add_box:%s-edges" % (DR, flag), ok, found=["%s -> %s" % (ast.unparse(a), ast.unparse(b)) for a, b in edges], required="for each port of %s: %s -> %s (the marker wire shifts the index by one)" % (it, src, tgt),
+               mod=DR, node=lp, sig="bubble-edges-" + flag)
 
 
 def check(ctx):
@@ -715,6 +773,9 @@ def check(ctx):
     check_node_keys(ctx)
     check_backends(ctx)
     check_diagramize(ctx)
+    ctx.rule("R20.9", "bubbles: opening / closing boxes typed against the inside, straight-wire flags only when the lengths on that side agree, index-shifted edges in add_box")
+    check_bubbles(ctx, top)
+    ctx.floor("R20.9", 7)
     ctx.floor("R20.1", 5)
     ctx.floor("R20.2", 7)
     ctx.floor("R20.3", 12)
@@ -722,5 +783,5 @@ def check(ctx):
     ctx.floor("R20.5", 24)
     ctx.floor("R20.6", 13)
     ctx.floor("R20.7", 7)
-    ctx.floor("R20.8", 10)
-    ctx.not_decided += ["the rendered picture (matplotlib / TikZ output)", "inner wires of bubbles", "diagramize on non-planar uses of the wires"]
+    ctx.floor("R20.8", 11)
+    ctx.not_decided += ["the rendered picture (matplotlib / TikZ output), including run-time errors inside the back-ends", "diagramize on non-planar uses of the wires"]
